@@ -164,6 +164,15 @@ impl<T> Feed<T> {
     }
 }
 
+/// the iterator's own destructor is caller code too (fault site "iter_drop"); it runs wherever the library lets go of it
+impl<T> Drop for Feed<T> {
+    fn drop(&mut self) {
+        if !std::thread::panicking() {
+            fault::tick(Site::IterDrop);
+        }
+    }
+}
+
 impl<T> Iterator for Feed<T> {
     type Item = T;
     fn next(&mut self) -> Option<T> {
